@@ -56,3 +56,7 @@ spec fn nd_entries_fit(d: NodeData) -> bool {
     }
 }
 
+// a branch never points at a header page (pages 0 and 1)
+spec fn node_links_ok(d: NodeData) -> bool {
+    d matches NodeData::Branches(b) ==> forall|k: int| 0 <= k < b@.len() ==> (#[trigger] b@[k]).page > 1
+}
